@@ -50,8 +50,12 @@ def gen(rng, idx, tier):
         stream.append({"kind": "final", "status": st, "ident": "failed_list" if (op in ("get", "move") and st in (0xB000, 0xA702, 0xFE00) and rng.randrange(2)) else "none"})
     else:
         stream.append({"kind": end})
+    net = C.gen_net(rng)
+    dimse = rng.choice([0.05, 0.1])
+    if net.get("seg") == "dribble":
+        dimse = 0.5     # a byte-by-byte dribble of one response must not outlast the DIMSE timeout
     return {"op": op, "stream": stream, "gap": rng.choice([0.0, 0.0005, 0.002]), "probe_lock": rng.randrange(3) > 0,
-            "dimse": rng.choice([0.05, 0.1]), "sched": C.gen_sched(rng, fine_pct=25), "net": C.gen_net(rng)}
+            "dimse": dimse, "sched": C.gen_sched(rng, fine_pct=25), "net": net}
 
 
 def shrink(sc):
